@@ -164,6 +164,24 @@ StepG(kind, c, g, now, big, fix) ==
           [] p.then = "write"  -> Fin(PutNegWrite(s, o.k, p.aux, now, fix.recheck), p.r)
           [] OTHER             -> Fin(s, p.r)
 
+\* The same step as a set of successors: exactly at the expiry instant (now = exp) C21 leaves the
+\* outcome open, so a Get may decide "hit" or "expired" there, and the section that drops the
+\* expired entry may drop it or keep it.  Used by LRUCacheLin, so that a concurrent history of a
+\* cache that treats the boundary the other way is still explained.
+StepGSet(kind, c, g, now, big, fix) ==
+  LET p  == c.pc[g]
+      k  == p.o.k
+      c1 == StepG(kind, c, g, now, big, fix)
+      atB == k \in Keys(c.s) /\ c.s.ent[k].exp = now
+      mid(r, th) == [s |-> c.s, pc |-> [c.pc EXCEPT ![g] = [p EXCEPT !.st = "mid", !.r = r, !.then = th]]]
+  IN {c1}
+     \cup (IF p.st = "called" /\ p.o.op = "get" /\ atB
+           THEN {mid([hit |-> TRUE, v |-> c.s.ent[k].v, neg |-> c.s.ent[k].neg], "touch"), mid(NoRes, "expire")}
+           ELSE {})
+     \cup (IF p.st = "mid" /\ p.then = "expire" /\ atB
+           THEN {[c1 EXCEPT !.s = Remove(c.s, {k})]}
+           ELSE {})
+
 -----------------------------------------------------------------------------
 (* Ideal level: what property C21 requires of one operation that takes the  *)
 (* cache from s to t at time now with result r.  The value is the set of    *)
